@@ -538,11 +538,42 @@ def run_concrete(stmts, env, events, notes, depth=0, workers=(), resolver=None, 
                         return r
                 continue
             if isinstance(st, ast.While):
-                # the body is interpreted once (the calls it makes are what matters here); the test is evaluated for its calls only
+                # inside a generator (whose values the caller consumes) a test that evaluates - and is not a bare constant such as `while True` - drives a
+                # real loop, bounded; otherwise the body is interpreted once
+                # (the calls it makes are what matters to the trace) - and when such a summarised loop produces values (a generator), that is noted so that
+                # nothing is concluded from them
                 try:
-                    val(st.test)
+                    t0 = val(st.test)
                 except NotConst:
-                    pass
+                    t0 = Desc("?")
+                if "$yield" in env and not isinstance(st.test, ast.Constant) and not isinstance(t0, (Desc, Obj)):
+                    n_it, res_ = 0, None
+                    while truth(t0):
+                        n_it += 1
+                        if n_it > 5000:
+                            _note("while loop not finished after 5000 iterations: %s" % U(st.test)[:40])
+                            break
+                        r = sub(st.body)
+                        if r == "break":
+                            break
+                        if r and r != "continue":
+                            res_ = r
+                            break
+                        try:
+                            t0 = val(st.test)
+                        except NotConst:
+                            t0 = Desc("?")
+                        if isinstance(t0, (Desc, Obj)):
+                            _note("while test not evaluable after %d iteration(s): %s" % (n_it, U(st.test)[:40]))
+                            break
+                    else:
+                        if st.orelse:
+                            res_ = sub(st.orelse)
+                    if res_:
+                        return res_
+                    continue
+                if "$yield" in env and any(isinstance(x, (ast.Yield, ast.YieldFrom)) for b_ in st.body for x in ast.walk(b_)):
+                    _note("while loop of a generator summarised: %s" % U(st.test)[:40])
                 r = sub(st.body)
                 if r and r not in ("break", "continue"):
                     return r
